@@ -44,7 +44,7 @@ for d in sorted(glob.glob(f'{SRC}/*/m*')):
     suite_ok = confirm.get('with_patch_pass_fail', '').startswith('275 0') or (confirm.get('with_patch_pass_fail', '').startswith('274 1') and only_flaky(confirm.get('with_patch_failed', '')))
     both = [n for n in confirm.get('with_patch_and_demo_failed', '').split() if n and n != FLAKY]
     pf = confirm.get('with_patch_and_demo_pass_fail', '')
-    demo_fails = len(both) >= 1 or (not confirm.get('with_patch_and_demo_failed', '').strip() and pf.split()[-1:] not in ([], ['0']))
+    demo_fails = len(both) >= 1 or (not confirm.get('with_patch_and_demo_failed', '').strip() and (pf.strip() == '' or pf.split()[-1] != '0'))  # an empty count: the run with the demonstration hung until the 420 s time-out
     demo_alone_ok = confirm.get('demo_only_pass_fail', '').endswith(' 0') or only_flaky(confirm.get('demo_only_failed', ' x'))
     ok = suite_ok and demo_fails and demo_alone_ok
     out = f'{DST}/{prop}/{tag}'
